@@ -35,11 +35,27 @@ def public_task(t, member_ids):
     }
 
 
+WBS_ATTR_NAMES = graph.CUSTOM_NAMES + ('critical_path', 'print', 'remove_all')
+
+
+def wattr_view(w):
+    """public attributes the workload sets on a WBS itself, read the way a user reads them (also names that a WBS method
+    carries: the value the user stored must come back, not the method)"""
+    out = []
+    for k in WBS_ATTR_NAMES:
+        v = getattr(w, k, '<absent>')
+        if callable(v):
+            v = '<absent>'        # the class's own method: nothing was stored under that name
+        if v != '<absent>':
+            out.append((k, repr(v)))
+    return tuple(sorted(out))
+
+
 def describe(w):
     ts = list(w.tasks)
     ids = {id(t) for t in ts}
     return [public_task(t, ids) for t in ts], [t.id for t in w.roots], \
-        tuple(sorted((k, repr(v)) for k, v in w.__dict__.items() if not k.startswith('_') and k in graph.CUSTOM_NAMES))
+        wattr_view(w)
 
 
 def expected_subtree(w, sel):
@@ -113,7 +129,7 @@ def _judge_one(case, kind, wi, acc):
         members = list(w.tasks)
         if not members:
             # an empty WBS (or an empty selection) still has to carry the public attributes of the WBS
-            wa = tuple(sorted((k, repr(v)) for k, v in w.__dict__.items() if not k.startswith('_') and k in graph.CUSTOM_NAMES))
+            wa = wattr_view(w)
             if kind == 'subtree' and case.get('sel_form') not in (None, 'list'):
                 continue
             acc.ev()
@@ -123,17 +139,17 @@ def _judge_one(case, kind, wi, acc):
             except Exception as e:
                 acc.violation(f'C10/{kind}-raised-{type(e).__name__}/empty', f'{kind} of an empty WBS/selection raised {type(e).__name__}: {str(e)[:80]}', dict(case, kinds=[kind], only_wbs=wi))
                 continue
-            ca = tuple(sorted((k, repr(v)) for k, v in c0.__dict__.items() if not k.startswith('_') and k in graph.CUSTOM_NAMES))
+            ca = wattr_view(c0)
             if ca != wa or list(c0.tasks):
                 acc.violation(f'C10/{kind}/wbs-attributes/empty', f'{kind} of an empty WBS/selection: attributes {ca} vs source {wa}, tasks {len(list(c0.tasks))}', dict(case, kinds=[kind], only_wbs=wi))
             continue
         if kind == 'subtree' and case.get('empty_selection'):
             acc.ev()
             acc.count('empty_copies')
-            wa = tuple(sorted((k, repr(v)) for k, v in w.__dict__.items() if not k.startswith('_') and k in graph.CUSTOM_NAMES))
+            wa = wattr_view(w)
             try:
                 c0 = w.subtree([])
-                ca = tuple(sorted((k, repr(v)) for k, v in c0.__dict__.items() if not k.startswith('_') and k in graph.CUSTOM_NAMES))
+                ca = wattr_view(c0)
                 if ca != wa or list(c0.tasks):
                     acc.violation('C10/subtree/wbs-attributes/empty', f'subtree([]) : attributes {ca} vs source {wa}, tasks {len(list(c0.tasks))}', dict(case, kinds=[kind], only_wbs=wi))
             except Exception as e:
@@ -283,7 +299,7 @@ def _tail(case, w, c, acc, one, kind):
                 side.stamp = k
             elif op == 'clear_links':
                 t.successors = []
-        except RuntimeError:
+        except (RuntimeError, TypeError):      # TypeError: sorting ids of mixed kinds
             pass
         acc.count('tail_mutations')
         after = describe(other)
@@ -302,7 +318,14 @@ def gen_case(rnd, tier='quick'):
         spec['wbs'] = [{}, {}]
     n = len(spec['tasks'])
     attrs = [({'x': rnd.choice([None, 'a', 5])} if rnd.random() < 0.5 else {}) for _ in range(n)]
+    for a_ in attrs:
+        if rnd.random() < 0.1:
+            a_[rnd.choice(['cost center', '2nd reviewer'])] = rnd.choice([1, 'me', None])     # e.g. a CSV column title
     wattrs = [({'note': rnd.choice(['n', 3]), 'owner': 'me'} if rnd.random() < 0.5 else {}) for _ in spec['wbs']]
+    for wa_ in wattrs:
+        if rnd.random() < 0.15:
+            # a result stored on the plan under the name of the method that produced it
+            wa_[rnd.choice(['critical_path', 'print', 'remove_all'])] = rnd.choice([5, 'cached', (1, 2)])
     # a prefix that mostly builds structure: attach, link, move
     u = Universe(spec)
     ops = []
